@@ -394,6 +394,13 @@ impl Value {
     }
 
     pub fn aggressively_to_num(s: impl AsRef<str> + Into<String>) -> Result<f64, EvalError> {
+        // Text that already reads as a number keeps its value (sign, exponent, fraction):
+        // the character filter below would turn "-5" into 5 and "1e3" into 13.
+        match Value::from_string(s.as_ref()) {
+            Value::Float(f) => return Ok(f.0),
+            Value::Int(i) => return Ok(i as f64),
+            _other => {}
+        }
         // Handle cases like
         // 1,000,000
         match Value::from_string(
